@@ -51,13 +51,19 @@ type mField struct {
 }
 
 type mDoc struct {
-	Name  string
-	EOL   string
-	Paras [][]mField
+	Name   string
+	EOL    string
+	Paras  [][]mField
+	Raw    []byte // degenerate documents: the text as such (no paragraph in it); nil otherwise
+	IsRaw  bool
+	Exotic bool // bytes outside printable ASCII / degenerate text: not shown to gpgv (its line handling is not the reference here)
 }
 
 // text renders the model as control-file text.
 func (d mDoc) text() []byte {
+	if d.IsRaw {
+		return d.Raw
+	}
 	var b bytes.Buffer
 	for i, p := range d.Paras {
 		if i > 0 {
@@ -136,11 +142,46 @@ func documents() []mDoc {
 			{Key: "Package", First: "hello-doc"},
 		},
 	}
+	// byte classes: ISO-8859-1 bytes (invalid UTF-8: 0xE9, 0xFC, 0xFF), a lone lead byte 0xC3, a truncated 3-byte sequence
+	latin := [][]mField{{
+		{Key: "Source", First: "hello"},
+		{Key: "Maintainer", First: "Andr\xe9 M\xfcller <a@b.example>"},
+		{Key: "X-Bytes", First: "\xff mid \xc3 end\xc3"},
+		{Key: "X-Truncated", First: "a\xe6\x97 b"},
+		{Key: "Description", First: "caf\xe9", Cont: []string{"continuation \xe9 \xff", "", "last\xff"}, CPad: []string{" ", "", "\t"}},
+	}}
+	// a BOM at the start of the signed text, in a value and on a continuation line; valid multi-byte sequences (also in a
+	// field name); NUL; CR inside a line; a line that needs dash-escaping; trailing blanks and tabs
+	multi := [][]mField{
+		{
+			{Key: "\xef\xbb\xbfSource", First: "h\xc3\xa9llo"},
+			{Key: "Title", First: "\xe6\x97\xa5\xe6\x9c\xac \xf0\x9f\x98\x80"},
+			{Key: "X-Nul", First: "a\x00b"},
+			{Key: "X-CR", First: "a\rb"},
+			{Key: "N\xc3\xa9e", First: "named with \xc3\xa9"},
+			{Key: "-dashed", First: "needs dash-escaping", Pad: " \t"},
+			{Key: "X-Bom-Value", First: "\xef\xbb\xbfv"},
+			{Key: "Description", First: "d", Cont: []string{"\xef\xbb\xbfbom on a continuation line", "tab\tinside", "", "- dash"}, CPad: []string{"", " \t ", "", ""}},
+		},
+		{
+			{Key: "Package", First: "p\xc3\xa9"},
+		},
+	}
 	return []mDoc{
 		{Name: "one-paragraph", EOL: "\n", Paras: one},
 		{Name: "two-paragraphs-multiline", EOL: "\n", Paras: two},
 		{Name: "two-paragraphs-multiline-crlf", EOL: "\r\n", Paras: two},
 		{Name: "three-paragraphs-different-fields", EOL: "\n", Paras: three},
+		{Name: "bytes-latin1-and-invalid-utf8", EOL: "\n", Paras: latin, Exotic: true},
+		{Name: "bytes-latin1-and-invalid-utf8-crlf", EOL: "\r\n", Paras: latin, Exotic: true},
+		{Name: "bytes-bom-multibyte-nul-cr-dash", EOL: "\n", Paras: multi, Exotic: true},
+		// degenerate signed texts: they hold no paragraph at all
+		{Name: "degenerate-empty-text", EOL: "\n", IsRaw: true, Raw: []byte{}, Exotic: true},
+		{Name: "degenerate-one-blank-line", EOL: "\n", IsRaw: true, Raw: []byte("\n"), Exotic: true},
+		{Name: "degenerate-only-blank-lines", EOL: "\n", IsRaw: true, Raw: []byte("\n\n\n"), Exotic: true},
+		{Name: "degenerate-only-comment-lines", EOL: "\n", IsRaw: true, Raw: []byte("# nothing here\n#\n# Source: commented-out\n"), Exotic: true},
+		{Name: "degenerate-whitespace-only-lines", EOL: "\n", IsRaw: true, Raw: []byte("  \n\t\n \t \n"), Exotic: true},
+		{Name: "degenerate-blank-lines-crlf", EOL: "\r\n", IsRaw: true, Raw: []byte("\r\n\r\n"), Exotic: true},
 	}
 }
 
@@ -976,15 +1017,35 @@ func referenceVerifies(doc []byte, k *key) bool {
 func selfCheck(r *mc.Run, docs []mDoc, signed []signedDoc, K1, K2 *key) {
 	// the document model against hand-written literals (so that "differs from the model" can be held against the library)
 	lit := map[string]string{
-		"one-paragraph":                     `[{"Order":["Source","Version","Maintainer"],"Values":{"Maintainer":"A B \u003ca@b.example\u003e","Source":"hello","Version":"1.0-1"}}]`,
-		"two-paragraphs-multiline":          `[{"Order":["Source","Description","Section"],"Values":{"Description":"short text\nfirst line\n\n- dash item\ntrailing blanks\n","Section":"misc","Source":"hello"}},{"Order":["Package","Architecture"],"Values":{"Architecture":"any","Package":"hello-bin"}}]`,
-		"three-paragraphs-different-fields": `[{"Order":["Source","Version"],"Values":{"Source":"hello","Version":"1.0-1"}},{"Order":["Package","Architecture","Depends","Description"],"Values":{"Architecture":"any","Depends":"libc6 (\u003e= 2.36)","Description":"says hello\na longer text\n\nend\n","Package":"hello-bin"}},{"Order":["Package"],"Values":{"Package":"hello-doc"}}]`,
+		"one-paragraph":                     `{"Source":"hello" "Version":"1.0-1" "Maintainer":"A B <a@b.example>"}`,
+		"two-paragraphs-multiline":          `{"Source":"hello" "Description":"short text\nfirst line\n\n- dash item\ntrailing blanks\n" "Section":"misc"}{"Package":"hello-bin" "Architecture":"any"}`,
+		"three-paragraphs-different-fields": `{"Source":"hello" "Version":"1.0-1"}{"Package":"hello-bin" "Architecture":"any" "Depends":"libc6 (>= 2.36)" "Description":"says hello\na longer text\n\nend\n"}{"Package":"hello-doc"}`,
+		"bytes-latin1-and-invalid-utf8":     `{"Source":"hello" "Maintainer":"Andr\xe9 M\xfcller <a@b.example>" "X-Bytes":"\xff mid \xc3 end\xc3" "X-Truncated":"a\xe6\x97 b" "Description":"caf\xe9\ncontinuation \xe9 \xff\n\nlast\xff\n"}`,
+		"bytes-bom-multibyte-nul-cr-dash":   `{"\ufeffSource":"héllo" "Title":"日本 😀" "X-Nul":"a\x00b" "X-CR":"a\rb" "Née":"named with é" "-dashed":"needs dash-escaping" "X-Bom-Value":"\ufeffv" "Description":"d\n\ufeffbom on a continuation line\ntab\tinside\n\n- dash\n"}{"Package":"pé"}`,
 	}
 	lit["two-paragraphs-multiline-crlf"] = lit["two-paragraphs-multiline"]
+	lit["bytes-latin1-and-invalid-utf8-crlf"] = lit["bytes-latin1-and-invalid-utf8"]
+	dump := func(ps []Para) string {
+		var b strings.Builder
+		for _, p := range ps {
+			b.WriteString("{")
+			for i, k := range p.Order {
+				if i > 0 {
+					b.WriteString(" ")
+				}
+				fmt.Fprintf(&b, "%q:%q", k, p.Values[k])
+			}
+			b.WriteString("}")
+		}
+		return b.String()
+	}
 	for _, d := range docs {
-		b, _ := json.Marshal(d.want())
-		if w, ok := lit[d.Name]; !ok || string(b) != w {
-			r.HarnessError("self-check: document model of %s is %s, hand-written expectation %s", d.Name, b, w)
+		w, ok := lit[d.Name]
+		if d.IsRaw {
+			w, ok = "", true // no paragraph
+		}
+		if got := dump(d.want()); !ok || got != w {
+			r.HarnessError("self-check: document model of %s is %s, hand-written expectation %s", d.Name, got, w)
 		}
 	}
 	for _, sd := range signed {
@@ -1001,7 +1062,8 @@ func selfCheck(r *mc.Run, docs []mDoc, signed []signedDoc, K1, K2 *key) {
 			r.HarnessError("self-check: CSRegion fails on our %s", sd.m.Name)
 			continue
 		}
-		if !bytes.Equal(sd.bytes[ts:te], sd.m.text()) {
+		undashed := bytes.ReplaceAll(append([]byte("\n"), sd.bytes[ts:te]...), []byte("\n- "), []byte("\n"))[1:]
+		if !bytes.Equal(undashed, sd.m.text()) {
 			r.HarnessError("self-check: signed region of %s is not the rendered text (dash escaping?)", sd.m.Name)
 		}
 		if !bytes.Equal(gen.CSCanonical(sd.bytes[ts:te]), blk.Bytes) {
@@ -1069,6 +1131,9 @@ func selfCheck(r *mc.Run, docs []mDoc, signed []signedDoc, K1, K2 *key) {
 		return err == nil, string(out)
 	}
 	for _, sd := range signed {
+		if sd.m.Exotic {
+			continue
+		}
 		ran++
 		ok, out := run(sd.signer.name, sd.bytes)
 		if !ok {
